@@ -147,6 +147,8 @@ def gen_base_op(cfg, rs, enabled, swarm):
         return {'op': 'softmax_opts', 'kw': gen_softmax_kw(cfg, rs)}
     if k == 'set_cost_spec':
         return {'op': 'set_cost_spec', 'name': other_cost(cfg, rs)}
+    if k == 'ckpt':
+        return {'op': rs.choice(['save_ckpt', 'load_ckpt', 'load_ckpt'])}
     if k == 'read_cost':
         return {'op': 'read_cost'}
     if k == 'read_summary':
